@@ -56,6 +56,12 @@ pub struct Spec {
     /// that leaves the word unchanged, as futex(2) allows at any time - and then keeps running for 2 ms
     #[serde(default)]
     pub spurious: bool,
+    /// exit stall: every free the thread makes after its closure is done sleeps this many ns first
+    #[serde(default)]
+    pub stall_ns: u32,
+    /// the parent carries out its disposition when the k-th stalled free has begun (0 = no rendezvous)
+    #[serde(default)]
+    pub stall_k: u8,
 }
 
 impl Spec {
@@ -82,7 +88,9 @@ pub fn encode_batch(b: &Batch) -> Vec<u8> {
         pl.extend_from_slice(&s.child_delay.amount().to_le_bytes());
         pl.extend_from_slice(&s.parent_delay.amount().to_le_bytes());
         pl.extend_from_slice(&s.tag.to_le_bytes());
-        pl.extend_from_slice(&0u64.to_le_bytes());
+        pl.extend_from_slice(&s.stall_ns.to_le_bytes());
+        pl.push(s.stall_k);
+        pl.extend_from_slice(&[0u8; 3]);
     }
     let mut out = (pl.len() as u32).to_le_bytes().to_vec();
     out.extend_from_slice(&pl);
@@ -242,6 +250,9 @@ pub struct SpecRep {
     pub canary: u8,
     /// spurious specs: 1 = the wake-up woke a parked waiter, 2 = nobody was parked, 3 = address unavailable
     pub woke: u8,
+    /// bit 0: the disposition began while the thread slept in its epilogue; bit 1: join returned while it
+    /// still slept there; bits 4..: stalled frees begun
+    pub stall_obs: u8,
     pub run: u32,
     pub tid: u32,
     pub vhash: u64,
@@ -335,7 +346,7 @@ pub fn parse_report(b: &[u8]) -> Option<BatchReport> {
         let join_class = r.u8();
         let canary = r.u8();
         let woke = r.u8();
-        r.u8();
+        let stall_obs = r.u8();
         let run = r.u32();
         let tid = r.u32();
         let vhash = r.u64();
@@ -344,7 +355,7 @@ pub fn parse_report(b: &[u8]) -> Option<BatchReport> {
         let buf_join = r.u64();
         let buf_drain = r.u64();
         let canary_addr = r.u64();
-        rep.specs.push(SpecRep { spawn_errno, join_class, canary, woke, run, tid, vhash, vlen, closure_size, buf_join, buf_drain, canary_addr });
+        rep.specs.push(SpecRep { spawn_errno, join_class, canary, woke, stall_obs, run, tid, vhash, vlen, closure_size, buf_join, buf_drain, canary_addr });
     }
     let nlog = r.u32() as usize;
     if nlog > 1 << 16 {
